@@ -1,22 +1,31 @@
-"""C04 - spherematch returns exactly the pairs closer than the match length (partial: the
-spatial hash is replaced by a trivially complete one; the pair loop, sorting and maxmatch
-bookkeeping are the real code)."""
+"""C04 - spherematch returns exactly the pairs closer than the match length (partial, in two halves:
+(a) the pair loop, sorting and maxmatch bookkeeping are the real code over a trivially complete hash and an
+arbitrary distance matrix; (b) the real spatial hash - chunks.__init__ / rarange / assign / getbounds / get -
+is shown complete in its own box metric (Dec and RA cos Dec within the match length, across the RA seam)
+for symbolic right ascensions.  The spherical-geometry step from 'separation < L' to that box is not
+decided by any SMT theory and is not claimed."""
 import numpy as np
 import z3
 
 from pathsym import core, symnp
 from pathsym.core import R, B, zt
+from fractions import Fraction
 from .common import Obligation
+
+F = Fraction
 
 PID = 'C04'
 
 META = {
-    'functions_encoded': ['pydl.pydlutils.spheregroup.spherematch (candidate loop, sep < matchlength, argsort, maxmatch passes)'],
-    'stubs': ['class chunks -> hash whose single cell holds every point of the second list (trivially complete)',
+    'functions_encoded': ['pydl.pydlutils.spheregroup.spherematch (candidate loop, sep < matchlength, argsort, maxmatch passes)',
+                          'chunks.__init__', 'chunks.rarange', 'chunks.getraminmax', 'chunks.cosDecMin', 'chunks.assign', 'chunks.getbounds', 'chunks.get'],
+    'stubs': ['match obligations: class chunks -> hash whose single cell holds every point of the second list (trivially complete); '
+              'hash obligations: the real class, cos / deg2rad of the (concrete) declination bounds evaluated in IEEE double and used as exact rationals',
               'gcirc -> 3600*D[i][k] arcsec with D an arbitrary non-negative real matrix'],
     'assumptions': ['argsort of symbolic distances: stable order for ties'],
-    'outside_bounds': 'completeness of the spatial hash (chunks.__init__/assign/getbounds/get) at the RA seam, chunk edges and poles: '
-                      'NOT claimed - it rests on trigonometric inequalities no SMT theory decides; more than 3x2 points; maxmatch > 2',
+    'outside_bounds': 'the spherical-geometry lemma "separation < L implies |dDec| < L and dRA cos Dec < L" that links the hash\'s box metric to '
+                      'great-circle separation (trigonometric, no SMT theory decides it); hash: first-list declinations are concrete (five '
+                      'configurations incl. a polar one), one second-list point, chunk sizes 30-120 deg; match loop: more than 3x2 points; maxmatch > 2',
 }
 
 
@@ -94,12 +103,71 @@ def ob_match(n1, n2, maxmatch):
                       bounds='%dx%d points, every distance matrix and match length' % (n1, n2), max_paths=300000, max_seconds=1700)
 
 
+# ------------------------------------------------------------------ the spatial hash (chunks): box completeness
+HASH_CONFIGS = {
+    # name: (declinations of the first list, chunk size, match length, RA window of the first list or None)
+    'equator-120': ([F(0), F(0)], F(120), F(20), None),
+    'equator-120-seam': ([F(0), F(0)], F(120), F(20), 'seam-narrow'),
+    'equator-40-seam': ([F(0), F(5)], F(40), F(10), 'seam'),
+    'band-40': ([F(-10), F(10)], F(40), F(15), None),
+    'polar-30': ([F(80), F(85)], F(30), F(5), None),
+    'three-60': ([F(0), F(20), F(-20)], F(60), F(25), None),
+}
+
+
+def ob_hash(name):
+    """the real chunks.__init__ / assign / get on symbolic right ascensions: a second-list point that is
+    within the match length of a first-list point in declination and in (RA x cos dec) - across the
+    0/360 seam too - must be listed in the cell the first-list point is looked up in."""
+    dec1, minsize, margin, window = HASH_CONFIGS[name]
+
+    def fn(ctx):
+        import math
+        import pydl.pydlutils.spheregroup as sg
+        n1 = len(dec1)
+        ra1 = [ctx.real('ra1_%d' % i) for i in range(n1)]
+        for v in ra1:
+            ctx.add(z3.And(zt(v) >= 0, zt(v) < 360))
+            if window == 'seam':
+                ctx.add(z3.Or(zt(v) < 15, zt(v) >= 345))
+            if window == 'seam-narrow':
+                ctx.add(z3.Or(zt(v) < 10, zt(v) >= 350))
+        ra2, dec2 = ctx.real('ra2'), ctx.real('dec2')
+        ctx.add(z3.And(zt(ra2) >= 0, zt(ra2) < 360, zt(dec2) > -90, zt(dec2) < 90))
+        if window == 'seam-narrow':
+            ctx.add(z3.And(z3.Or(zt(ra2) < 40, zt(ra2) >= 320), zt(dec2) > -30, zt(dec2) < 30))
+        d = {'fn': 'hash', 'config': name}
+        ctx.detail = d
+        chunk = sg.chunks(symnp.rarray(ra1), symnp.rarray(dec1), R(minsize))
+        chunk.assign(symnp.rarray([ra2]), symnp.rarray([dec2]), R(margin))
+        for i in range(n1):
+            currra = symnp.fmod(ra1[i] + chunk.raOffset, R(Fraction(360)))
+            rachunk, decchunk = chunk.get(currra, R(dec1[i]))
+            found = 0 in [int(k) for k in chunk.chunkList[decchunk][rachunk]]
+            cosd = R(core._frac(math.cos(math.radians(float(dec1[i])))))
+            dra = zt(ra1[i]) - zt(ra2)
+            dra = z3.If(dra >= 0, dra, -dra)
+            circ = z3.If(dra <= 180, dra, 360 - dra)
+            ddec = zt(R(dec1[i])) - zt(dec2)
+            near = z3.And(ddec < zt(R(margin)), -ddec < zt(R(margin)), circ * zt(cosd) < zt(R(margin)))
+            if not found:
+                ctx.require(z3.Not(near), 'spatial hash: a second-list point within the match length (in Dec and in RA cos Dec, also across the '
+                            'RA seam) of a first-list point is listed in that point\'s cell', dict(d, i=i, cell=[int(decchunk), int(rachunk)]))
+            else:
+                ctx.require(zt(ra2) == zt(ra2), 'symbolic touch')
+    return Obligation('chunk hash %s' % name, fn, bounds='first list: %d points at Dec %s, every RA%s; second list: one point anywhere; chunk size %s, match length %s'
+                      % (len(dec1), [str(x) for x in dec1], {None: '', 'seam': ' within 15 deg of the seam', 'seam-narrow': ' within 10 deg of the seam (second list: within 40 deg of it, |Dec| < 30)'}[window], minsize, margin),
+                      max_paths=400000, max_seconds=1700, solver_timeout_ms=60000)
+
+
 def obligations(tier, seed):
     shapes = [(2, 1), (2, 2)] if tier == 'quick' else [(2, 1), (2, 2), (3, 2), (2, 3)]
     obs = []
     for n1, n2 in shapes:
         for mm in (0, 1, 2):
             obs.append(ob_match(n1, n2, mm))
+    for name in (('equator-120-seam',) if tier == 'quick' else [n for n in HASH_CONFIGS if n != 'equator-120-seam']):
+        obs.append(ob_hash(name))
     if tier == 'quick':
         obs.append(ob_match(3, 2, 1))
         obs.append(ob_match(3, 1, 2))      # one second-list point with three partners, maxmatch=2
@@ -117,6 +185,24 @@ def replay(rec):
     import pydl.pydlutils.spheregroup as sg
     d = rec['detail'] or {}
     inp = rec['inputs'] or {}
+    if d.get('fn') == 'hash':
+        import math
+        dec1, minsize, margin, window = HASH_CONFIGS[d['config']]
+        dec1 = np.array([float(v) for v in dec1])
+        ra1 = np.array([_f(inp.get('ra1_%d' % i, 0)) for i in range(len(dec1))])
+        ra2, dec2 = np.array([_f(inp.get('ra2', 0))]), np.array([_f(inp.get('dec2', 0))])
+        chunk = sg.chunks(ra1, dec1, float(minsize))
+        chunk.assign(ra2, dec2, float(margin))
+        for i in range(len(dec1)):
+            rc, dc = chunk.get(np.fmod(ra1[i] + chunk.raOffset, 360.0), dec1[i])
+            found = 0 in chunk.chunkList[dc][rc]
+            dra = abs(ra1[i] - ra2[0])
+            circ = min(dra, 360.0 - dra)
+            m = float(margin) * (1 - 1e-9)      # strictly inside the match length, clear of rounding at the boundary
+            near = abs(dec1[i] - dec2[0]) < m and circ * math.cos(math.radians(dec1[i])) < m
+            if near and not found:
+                return True
+        return False
     n1, n2, mm = d['n1'], d['n2'], d['maxmatch']
     # exact dyadic scaling keeps 3600*D/3600 exact enough; compare with tolerance-free logic on the inputs
     D = [[_f(inp['d%d_%d' % (i, k)]) for k in range(n2)] for i in range(n1)]
